@@ -62,6 +62,17 @@ def run(ck: vlib.Check):
         if r[0] == 0:
             dist["raises"] += 1
             continue
+        wm = SC.wav_meta_of(b)
+        if wm:
+            # the optional wav_metadata_lookup of encode_chk (always passed by the MPQ save) must not change what an
+            # unedited map says: stored durations are explicit
+            rw = RC.impl_load_save(b, wm)
+            ck.evaluations += 1
+            if rw != r:
+                what = "raises" if rw[0] == 0 else "; ".join(RC.chunk_diff(bytes(r[1]), bytes(rw[1]))[:2])
+                ck.violation(f"{label}: saving the unedited map WITH sound metadata differs from saving it without: {what}",
+                             {"kind": "wavmeta", "label": label, "input_hex": b.hex() if len(b) < 400000 else None,
+                              "wav_meta": wm}, True)
         diffs = SC.semantic_diff(b, bytes(r[1]))
         bad = [d for k, d in diffs if k is None or k not in known_keys]
         if bad:
@@ -96,6 +107,10 @@ def replay(path: str) -> int:
     if rp.get("input_hex"):
         b = bytes.fromhex(rp["input_hex"])
         r = RC.impl_load_save(b)
+        if rp.get("kind") == "wavmeta":
+            bad = RC.impl_load_save(b, rp["wav_meta"]) != r
+            print("still failing" if bad else "no longer failing")
+            return 1 if bad else 0
         known, _ = vlib.load_known_findings(PROP)
         keys = {f["key"] for f in known}
         bad = [d for k, d in SC.semantic_diff(b, bytes(r[1])) if k is None or k not in keys] if r[0] == 1 else []
